@@ -283,6 +283,10 @@ def param_names(sig):
     parts = []
     while j < close:
         t = toks[j][1]
+        if depth == 0 and t == '#' and toks[j + 1][1] == '[':
+            # attribute on a parameter (e.g. bon's #[builder(default = ..)]): not part of the name
+            j = match_close(toks, j + 1) + 1
+            continue
         if toks[j][0] == 'punct' and t in '([{':
             depth += 1
         elif toks[j][0] == 'punct' and t in ')]}':
@@ -448,3 +452,90 @@ if __name__ == '__main__':
     print('{' + f['body'] + '}')
     print(param_names(f['sig']))
     print([(l['kw'], l['head']) for l in find_loops(f['body'])])
+
+
+def _attr_expr_in_range(toks, src, j, close, field, attr, key, what):
+    """toks[j] opens the field/parameter list (`{` of a struct, `(` of a fn), toks[close] closes it."""
+    k = j + 1
+    attrs = []
+    while k < close:
+        if toks[k][1] == '#' and toks[k + 1][1] == '[':
+            c = match_close(toks, k + 1)
+            attrs.append((k + 1, c))
+            k = c + 1
+            continue
+        if toks[k][0] == 'id' and toks[k][1] in ('pub', 'mut'):
+            k += 1
+            if toks[k][1] == '(':
+                k = match_close(toks, k) + 1
+            continue
+        if toks[k][0] == 'id' and k + 1 < close and toks[k + 1][1] == ':':
+            fname = toks[k][1]
+            if fname == field:
+                for (a, c) in attrs:
+                    if toks[a + 1][1] == attr and toks[a + 2][1] == '(':
+                        pc = match_close(toks, a + 2)
+                        start = a + 3
+                        depth = 0
+                        items = []
+                        q = start
+                        while q <= pc:
+                            tt = toks[q][1]
+                            if q == pc or (tt == ',' and depth == 0):
+                                items.append((start, q))
+                                start = q + 1
+                            elif tt in '([{':
+                                depth += 1
+                            elif tt in ')]}':
+                                depth -= 1
+                            q += 1
+                        for (x, y) in items:
+                            if y - x >= 3 and toks[x][1] == key and toks[x + 1][1] == '=':
+                                b0, b1 = toks[x + 2][2], toks[y - 1][3]
+                                return dict(body=src[b0:b1], b0=b0, b1=b1)
+                raise LookupError('%s %s: no #[%s(%s = ..)]' % (what, field, attr, key))
+            attrs = []
+            depth = 0
+            k += 2
+            while k < close:
+                tt = toks[k][1]
+                if tt in '([{<':
+                    depth += 1
+                elif tt in ')]}>':
+                    depth -= 1
+                elif tt == ',' and depth <= 0:
+                    break
+                k += 1
+            k += 1
+            continue
+        k += 1
+    raise LookupError('%s has no field/parameter %s' % (what, field))
+
+
+def find_struct_field_attr(src, struct_name, field, attr, key):
+    """Locate `key = <expr>` inside the `#[attr(...)]` attribute of field `field` of `struct struct_name`, or — when
+    struct_name is a function path (`Type::f`) — of parameter `field` of that function (attribute-macro arguments such as
+    bon's `#[builder(default = <expr>)]` are ordinary expressions that run in the generated constructor).
+    Returns dict(body=expr text, line=..., end_line=...) or raises LookupError."""
+    if '::' in struct_name:
+        f = find_fn(src, struct_name)
+        sig = f['sig']
+        toks = sig_tokens(sig)
+        for i, t in enumerate(toks):
+            if t[1] == '(' and i > 0 and toks[i - 1][0] == 'id':
+                r = _attr_expr_in_range(toks, sig, i, match_close(toks, i), field, attr, key, 'fn ' + struct_name)
+                return dict(body=r['body'], line=f['line'], end_line=f['line'] + sig.count('\n'))
+        raise LookupError('fn %s: no parameter list' % struct_name)
+    toks = sig_tokens(src)
+    for i, t in enumerate(toks):
+        if t[0] == 'id' and t[1] == 'struct' and i + 1 < len(toks) and toks[i + 1][1] == struct_name and _at_item_pos(toks, i):
+            j = i + 2
+            while j < len(toks) and toks[j][1] not in ('{', ';'):
+                if toks[j][1] in '([':
+                    j = match_close(toks, j)
+                j += 1
+            if j >= len(toks) or toks[j][1] != '{':
+                continue
+            r = _attr_expr_in_range(toks, src, j, match_close(toks, j), field, attr, key, 'struct ' + struct_name)
+            return dict(body=r['body'], line=src.count('\n', 0, r['b0']) + 1, end_line=src.count('\n', 0, r['b1']) + 1)
+    raise LookupError('struct %s not found' % struct_name)
